@@ -227,11 +227,16 @@ theorem applyAll_append : ∀ (xs ys : List Ch) (t : T),
 theorem insertAt_WF : ∀ (p : List Nat) (t c t' : T), t.WF → c.WF → insertAt t p c = some t' → t'.WF
   | [], _, _, _, _, _, h => by simp [insertAt] at h
   | [name], .n d k, c, t', hw, hc, h => by
-    simp only [insertAt, Option.some.injEq] at h
-    subst h
-    exact F.WF_set k name c hw hc
+    simp only [insertAt] at h
+    split at h
+    · cases h
+    · simp only [Option.some.injEq] at h
+      subst h
+      exact F.WF_set k name c hw hc
   | name :: q :: qs, .n d k, c, t', hw, hc, h => by
     simp only [insertAt] at h
+    split at h
+    · cases h
     cases hf : k.find name with
     | none => simp [hf] at h
     | some sub =>
@@ -248,10 +253,14 @@ theorem rmAt_WF : ∀ (p : List Nat) (t t' : T), t.WF → rmAt t p = some t' →
   | [name], .n d k, t', hw, h => by
     simp only [rmAt] at h
     split at h
-    · simp only [Option.some.injEq] at h; subst h; exact F.WF_remove k name hw
     · cases h
+    · split at h
+      · simp only [Option.some.injEq] at h; subst h; exact F.WF_remove k name hw
+      · cases h
   | name :: q :: qs, .n d k, t', hw, h => by
     simp only [rmAt] at h
+    split at h
+    · cases h
     cases hf : k.find name with
     | none => simp [hf] at h
     | some sub =>
@@ -275,41 +284,43 @@ theorem apply1_WF (t t' : T) (ch : Ch) (hw : t.WF) (hc : ch.WF) (h : apply1 t ch
       simp only [hr] at h
       exact insertAt_WF p t1 a t' (rmAt_WF p t t1 hw hr) hc h
 
+theorem raw_n (d : Nat) (k k' : F) : T.raw (.n d k) = T.raw (.n d k') := rfl
+
 theorem insertAt_cons (d : Nat) (k : F) (name : Nat) (p : List Nat) (c t : T) (hp : p ≠ [])
-    (hf : k.find name = some t) :
+    (hf : k.find name = some t) (hr : T.raw (.n d k) = false) :
     insertAt (.n d k) (name :: p) c = (insertAt t p c).map (fun t' => .n d (k.set name t')) := by
   cases p with
   | nil => exact absurd rfl hp
   | cons q qs =>
-    simp only [insertAt, hf]
+    simp only [insertAt, hf, hr, Bool.false_eq_true, if_false]
     cases insertAt t (q :: qs) c <;> rfl
 
 theorem rmAt_cons (d : Nat) (k : F) (name : Nat) (p : List Nat) (t : T) (hp : p ≠ [])
-    (hf : k.find name = some t) :
+    (hf : k.find name = some t) (hr : T.raw (.n d k) = false) :
     rmAt (.n d k) (name :: p) = (rmAt t p).map (fun t' => .n d (k.set name t')) := by
   cases p with
   | nil => exact absurd rfl hp
   | cons q qs =>
-    simp only [rmAt, hf]
+    simp only [rmAt, hf, hr, Bool.false_eq_true, if_false]
     cases rmAt t (q :: qs) <;> rfl
 
 /-- a change with a non-empty path, prefixed with `name`, acts on the child `name` -/
 theorem apply1_pre (d : Nat) (k : F) (name : Nat) (t : T) (ch : Ch) (hw : k.WF) (hf : k.find name = some t)
-    (hne : ch.path ≠ []) (hc : ch.WF) :
+    (hne : ch.path ≠ []) (hc : ch.WF) (hraw : T.raw (.n d k) = false) :
     apply1 (.n d k) (ch.pre name) = (apply1 t ch).map (fun t' => .n d (k.set name t')) := by
   have htw := F.find_WF k name t hw hf
   cases ch with
-  | add p a => exact insertAt_cons d k name p a t hne hf
-  | rm p b => exact rmAt_cons d k name p t hne hf
+  | add p a => exact insertAt_cons d k name p a t hne hf hraw
+  | rm p b => exact rmAt_cons d k name p t hne hf hraw
   | mod p b a =>
     simp only [apply1, Ch.pre]
-    rw [rmAt_cons d k name p t hne hf]
+    rw [rmAt_cons d k name p t hne hf hraw]
     cases hr : rmAt t p with
     | none => rfl
     | some t1 =>
       have h1 := rmAt_WF p t t1 htw hr
       simp only [Option.map_some]
-      rw [insertAt_cons d (k.set name t1) name p a t1 hne (by rw [F.find_set]; simp)]
+      rw [insertAt_cons d (k.set name t1) name p a t1 hne (by rw [F.find_set]; simp) hraw]
       cases hi : insertAt t1 p a with
       | none => rfl
       | some t2 =>
@@ -317,7 +328,8 @@ theorem apply1_pre (d : Nat) (k : F) (name : Nat) (t : T) (ch : Ch) (hw : k.WF) 
         simp only [Option.map_some]
         rw [F.set_set k name t1 t2 hw h1 h2]
 
-theorem applyAll_pre (d : Nat) (name : Nat) : ∀ (cs : List Ch) (k : F) (t t' : T), k.WF → k.find name = some t →
+theorem applyAll_pre (d : Nat) (name : Nat) (hr : T.raw (.n d .nil) = false) :
+    ∀ (cs : List Ch) (k : F) (t t' : T), k.WF → k.find name = some t →
     (∀ ch ∈ cs, ch.path ≠ [] ∧ ch.WF) → applyAll t cs = some t' →
     applyAll (.n d k) (cs.map (Ch.pre name)) = some (.n d (k.set name t'))
   | [], k, t, t', hw, hf, _, h => by
@@ -335,9 +347,9 @@ theorem applyAll_pre (d : Nat) (name : Nat) : ∀ (cs : List Ch) (k : F) (t t' :
       simp only [h1] at h
       have ht1 := apply1_WF t t1 ch htw hch.2 h1
       simp only [List.map_cons, applyAll]
-      rw [apply1_pre d k name t ch hw hf hch.1 hch.2, h1]
+      rw [apply1_pre d k name t ch hw hf hch.1 hch.2 hr, h1]
       simp only [Option.map_some]
-      have := applyAll_pre d name cs (k.set name t1) t1 t' (F.WF_set k name t1 hw ht1)
+      have := applyAll_pre d name hr cs (k.set name t1) t1 t' (F.WF_set k name t1 hw ht1)
         (by rw [F.find_set]; simp) (fun c hc => hall c (List.mem_cons_of_mem _ hc)) h
       rw [this, F.set_set k name t1 t' hw ht1]
       -- t' is well-formed: it is the result of applying well-formed changes to a well-formed tree
@@ -360,11 +372,11 @@ theorem applyAll_pre (d : Nat) (name : Nat) : ∀ (cs : List Ch) (k : F) (t t' :
 /-! ## the class of pairs on which Diff carries enough information -/
 
 mutual
-/-- `Sub a b`: a matched pair below the root that Diff + ApplyChange reproduce: equal, or both without
-links (one Mod), or — when either has links — equal `data` and all name-matched children again `Sub` -/
+/-- `Sub a b`: a matched pair below the root that Diff + ApplyChange reproduce: equal, or reported as one Mod
+(either is not a ProtoNode, or both are without links), or equal `data` and all name-matched children again `Sub` -/
 def Sub : T → T → Prop
-  | .n da ka, b => T.n da ka = b ∨ (ka.isNil = true ∧ b.kids.isNil = true) ∨
-      (¬(ka.isNil = true ∧ b.kids.isNil = true) ∧ da = b.data ∧ SubK ka b.kids)
+  | .n da ka, b => T.n da ka = b ∨ modPair (.n da ka) b = true ∨
+      (modPair (.n da ka) b = false ∧ da = b.data ∧ SubK ka b.kids)
 def SubK : F → F → Prop
   | .nil, _ => True
   | .cons name ta rest, kb => (∀ tb, kb.find name = some tb → Sub ta tb) ∧ SubK rest kb
@@ -372,7 +384,7 @@ end
 
 /-- the same at the root, where a Mod of the whole node cannot be applied -/
 def Good (a b : T) : Prop :=
-  a = b ∨ (¬(a.kids.isNil = true ∧ b.kids.isNil = true) ∧ a.data = b.data ∧ SubK a.kids b.kids)
+  a = b ∨ (modPair a b = false ∧ a.data = b.data ∧ SubK a.kids b.kids)
 
 /-! ## Remove and Add changes of one level -/
 
@@ -390,7 +402,7 @@ theorem onlyIn_WF : ∀ (r other : F), r.WF → ∀ p ∈ onlyIn r other, p.2.WF
       · simp at hp; subst hp; exact hw.1
     · exact onlyIn_WF r other hw.2.1 p hp
 
-theorem apply_rms (d : Nat) (other : F) : ∀ (r k : F), r.WF →
+theorem apply_rms (d : Nat) (other : F) (hr : T.raw (.n d .nil) = false) : ∀ (r k : F), r.WF →
     (∀ m t, r.find m = some t → other.find m = none → k.find m = some t) →
     applyAll (.n d k) ((onlyIn r other).map (fun p => Ch.rm [p.1] p.2)) = some (.n d (rmAll k (onlyIn r other)))
   | .nil, k, _, _ => rfl
@@ -409,23 +421,25 @@ theorem apply_rms (d : Nat) (other : F) : ∀ (r k : F), r.WF →
     simp only [onlyIn]
     by_cases ho : (other.find x).isSome = true
     · simp only [ho, if_true, List.nil_append]
-      exact apply_rms d other r k hw.2.1 (hk' k (fun _ _ => rfl))
+      exact apply_rms d other hr r k hw.2.1 (hk' k (fun _ _ => rfl))
     · have hon : other.find x = none := by
         cases h : other.find x with
         | none => rfl
         | some _ => rw [h] at ho; exact absurd rfl ho
       simp only [ho, Bool.false_eq_true, if_false, List.cons_append, List.nil_append, List.map_cons, applyAll, apply1, rmAt]
       have hx : k.find x = some t := hk x t (by simp [F.find]) hon
-      simp only [hx, Option.isSome_some, if_true]
-      have := apply_rms d other r (k.remove x) hw.2.1 (hk' _ (fun m hm => by rw [F.find_remove]; simp [hm]))
+      have hrk : T.raw (.n d k) = false := hr
+      simp only [hx, Option.isSome_some, if_true, hrk, Bool.false_eq_true, if_false]
+      have := apply_rms d other hr r (k.remove x) hw.2.1 (hk' _ (fun m hm => by rw [F.find_remove]; simp [hm]))
       simpa [rmAll] using this
 
-theorem apply_adds (d : Nat) : ∀ (l : List (Nat × T)) (k : F),
+theorem apply_adds (d : Nat) (hr : T.raw (.n d .nil) = false) : ∀ (l : List (Nat × T)) (k : F),
     applyAll (.n d k) (l.map (fun p => Ch.add [p.1] p.2)) = some (.n d (addAll k l))
   | [], k => rfl
   | p :: l, k => by
-    simp only [List.map_cons, applyAll, apply1, insertAt]
-    have := apply_adds d l (k.set p.1 p.2)
+    have hrk : T.raw (.n d k) = false := hr
+    simp only [List.map_cons, applyAll, apply1, insertAt, hrk, Bool.false_eq_true, if_false]
+    have := apply_adds d hr l (k.set p.1 p.2)
     simpa [addAll] using this
 
 theorem rmAll_WF : ∀ (l : List (Nat × T)) (k : F), k.WF → (rmAll k l).WF
@@ -576,7 +590,7 @@ theorem T.kids_WF {t : T} (h : t.WF) : t.kids.WF := by cases t; exact h
 
 mutual
 theorem diff_shape : ∀ (a b : T), b.WF → ∀ ch ∈ diff a b,
-    ch.WF ∧ (¬(a.kids.isNil = true ∧ b.kids.isNil = true) → ch.path ≠ [])
+    ch.WF ∧ (modPair a b = false → ch.path ≠ [])
   | .n da ka, b, hb, ch, hch => by
     simp only [diff] at hch
     split at hch
@@ -585,8 +599,7 @@ theorem diff_shape : ∀ (a b : T), b.WF → ∀ ch ∈ diff a b,
       · rename_i hl
         simp only [List.mem_singleton] at hch
         subst hch
-        refine ⟨hb, fun h => absurd ?_ h⟩
-        simpa [T.kids] using hl
+        exact ⟨hb, fun h => by rw [h] at hl; cases hl⟩
       · simp only [List.mem_append, List.mem_map] at hch
         rcases hch with (hch | ⟨p, hp, rfl⟩) | ⟨p, hp, rfl⟩
         · have := diffKids_shape ka b.kids (T.kids_WF hb) ch hch
@@ -620,25 +633,27 @@ theorem F.set_remove (k : F) (name : Nat) (t : T) (hw : k.WF) (ht : t.WF) :
 
 /-! ## main induction -/
 
+theorem modPair_false {a b : T} (h : modPair a b = false) : a.raw = false ∧ b.raw = false := by
+  unfold modPair at h
+  cases ha : a.raw <;> cases hb : b.raw <;> simp_all
+
 mutual
-/-- a node with links on either side, equal data and `SubK` children: applying Diff's changes gives `b` -/
-theorem apply_diff_node : ∀ (a b : T), a.WF → b.WF → a ≠ b → ¬(a.kids.isNil = true ∧ b.kids.isNil = true) →
+/-- a pair that Diff does not report as one Mod, with equal data and `SubK` children: applying Diff's changes gives `b` -/
+theorem apply_diff_node : ∀ (a b : T), a.WF → b.WF → a ≠ b → modPair a b = false →
     a.data = b.data → SubK a.kids b.kids → applyAll a (diff a b) = some b
   | .n da ka, .n db kb, ha, hb, hne, hnl, hd, hs => by
-    simp only [T.kids, T.data] at hnl hd hs
+    simp only [T.kids, T.data] at hd hs
     subst hd
+    have hraw : T.raw (.n da .nil) = false := (modPair_false hnl).1
     have hdiff : diff (.n da ka) (.n da kb) = diffKids ka kb
         ++ (onlyIn ka kb).map (fun p => Ch.rm [p.1] p.2) ++ (onlyIn kb ka).map (fun p => Ch.add [p.1] p.2) := by
-      simp only [diff, hne, if_false, T.kids]
-      have : (ka.isNil && kb.isNil) = false := by
-        cases h1 : ka.isNil <;> cases h2 : kb.isNil <;> simp_all
-      simp [this]
+      simp only [diff, hne, if_false, T.kids, hnl, Bool.false_eq_true]
     rw [hdiff, applyAll_append, applyAll_append]
-    rw [apply_diff_kids ka kb da ka ha hb ha hs (fun _ _ h => h)]
+    rw [apply_diff_kids ka kb da ka hraw ha hb ha hs (fun _ _ h => h)]
     simp only [Option.bind_some]
-    rw [apply_rms da kb ka (patch ka kb ka) ha ?_]
+    rw [apply_rms da kb hraw ka (patch ka kb ka) ha ?_]
     · simp only [Option.bind_some]
-      rw [apply_adds]
+      rw [apply_adds da hraw]
       have hw1 := patch_WF ka kb ka hb ha
       have hw2 := rmAll_WF (onlyIn ka kb) _ hw1
       have hw3 := addAll_WF (onlyIn kb ka) _ hw2 (onlyIn_WF kb ka hb)
@@ -654,13 +669,14 @@ theorem apply_diff_node : ∀ (a b : T), a.WF → b.WF → a ≠ b → ¬(a.kids
 
 /-- the recursive part of Diff over the links `rest` of `a` (a suffix of its link list), while the node
 being edited currently has links `kc` that still hold the original children for `rest` -/
-theorem apply_diff_kids : ∀ (rest kb : F) (d : Nat) (kc : F), rest.WF → kb.WF → kc.WF → SubK rest kb →
+theorem apply_diff_kids : ∀ (rest kb : F) (d : Nat) (kc : F), T.raw (.n d .nil) = false → rest.WF → kb.WF → kc.WF → SubK rest kb →
     (∀ m t, rest.find m = some t → kc.find m = some t) →
     applyAll (.n d kc) (diffKids rest kb) = some (.n d (patch rest kb kc))
-  | .nil, _, _, _, _, _, _, _, _ => rfl
-  | .cons name ta rest, kb, d, kc, hw, hb, hc, hs, hk => by
+  | .nil, _, _, _, _, _, _, _, _, _ => rfl
+  | .cons name ta rest, kb, d, kc, hraw, hw, hb, hc, hs, hk => by
     simp only [F.WF] at hw
     simp only [SubK] at hs
+    have hrawk : ∀ k : F, T.raw (.n d k) = false := fun _ => hraw
     have hrx : rest.find name = none := F.find_none_of_lb rest name name hw.2.1 hw.2.2 (Nat.le_refl _)
     have hkc : kc.find name = some ta := hk name ta (by simp [F.find])
     have hk' : ∀ kc' : F, (∀ x, x ≠ name → kc'.find x = kc.find x) → ∀ x t, rest.find x = some t → kc'.find x = some t := by
@@ -675,12 +691,12 @@ theorem apply_diff_kids : ∀ (rest kb : F) (d : Nat) (kc : F), rest.WF → kb.W
     cases hf : kb.find name with
     | none =>
       simp only [List.nil_append]
-      exact apply_diff_kids rest kb d kc hw.2.1 hb hc hs.2 (hk' kc (fun _ _ => rfl))
+      exact apply_diff_kids rest kb d kc hraw hw.2.1 hb hc hs.2 (hk' kc (fun _ _ => rfl))
     | some tb =>
       simp only []
       by_cases hab : ta = tb
       · simp only [hab, if_true, List.nil_append]
-        exact apply_diff_kids rest kb d kc hw.2.1 hb hc hs.2 (hk' kc (fun _ _ => rfl))
+        exact apply_diff_kids rest kb d kc hraw hw.2.1 hb hc hs.2 (hk' kc (fun _ _ => rfl))
       · simp only [hab, if_false]
         have htb : tb.WF := F.find_WF kb name tb hb hf
         have hsub := hs.1 tb hf
@@ -691,21 +707,21 @@ theorem apply_diff_kids : ∀ (rest kb : F) (d : Nat) (kc : F), rest.WF → kb.W
             simp only [Sub] at hsub
             rcases hsub with heq | hleaf | ⟨hnl, hd, hsk⟩
             · exact absurd heq hab
-            · -- both without links: one Mod at `name`
+            · -- reported as one Mod at `name`
               have hdiff : diff (.n da ka) tb = [.mod [] (.n da ka) tb] := by
-                simp only [diff, hab, if_false, hleaf.1, hleaf.2, Bool.and_self, if_true]
+                simp only [diff, hab, if_false, hleaf, if_true]
               rw [hdiff]
               simp only [List.map_cons, List.map_nil, Ch.pre, applyAll, apply1, rmAt, hkc, Option.isSome_some, if_true,
-                insertAt]
+                insertAt, hrawk, Bool.false_eq_true, if_false]
               rw [F.set_remove kc name tb hc htb]
-            · have hq := apply_diff_node (.n da ka) tb hw.1 htb hab (by simpa [T.kids] using hnl)
+            · have hq := apply_diff_node (.n da ka) tb hw.1 htb hab hnl
                 (by simpa [T.data] using hd) (by simpa [T.kids] using hsk)
               have hshape := diff_shape (.n da ka) tb htb
-              exact applyAll_pre d name (diff (.n da ka) tb) kc (.n da ka) tb hc hkc
-                (fun ch hch => ⟨(hshape ch hch).2 (by simpa [T.kids] using hnl), (hshape ch hch).1⟩) hq
+              exact applyAll_pre d name hraw (diff (.n da ka) tb) kc (.n da ka) tb hc hkc
+                (fun ch hch => ⟨(hshape ch hch).2 hnl, (hshape ch hch).1⟩) hq
         rw [applyAll_append, hstep]
         simp only [Option.bind_some]
-        exact apply_diff_kids rest kb d (kc.set name tb) hw.2.1 hb (F.WF_set kc name tb hc htb) hs.2
+        exact apply_diff_kids rest kb d (kc.set name tb) hraw hw.2.1 hb (F.WF_set kc name tb hc htb) hs.2
           (hk' _ (fun x hx => by rw [F.find_set]; simp [hx]))
 end
 
@@ -718,13 +734,11 @@ theorem subB_iff : ∀ (a b : T), subB a b = true ↔ Sub a b
     · rintro ((h | h) | ⟨⟨h1, h2⟩, h3⟩)
       · exact Or.inl h
       · exact Or.inr (Or.inl h)
-      · refine Or.inr (Or.inr ⟨?_, h2, h3⟩)
-        intro hh; rw [hh.1, hh.2] at h1; simp at h1
+      · exact Or.inr (Or.inr ⟨h1, h2, h3⟩)
     · rintro (h | h | ⟨h1, h2, h3⟩)
       · exact Or.inl (Or.inl h)
       · exact Or.inl (Or.inr h)
-      · refine Or.inr ⟨⟨?_, h2⟩, h3⟩
-        cases ha : ka.isNil <;> cases hb : b.kids.isNil <;> simp_all
+      · exact Or.inr ⟨⟨h1, h2⟩, h3⟩
 theorem subKB_iff : ∀ (ka kb : F), subKB ka kb = true ↔ SubK ka kb
   | .nil, _ => by simp [subKB, SubK]
   | .cons name ta rest, kb => by
@@ -746,11 +760,478 @@ theorem goodB_iff (a b : T) : goodB a b = true ↔ Good a b := by
   constructor
   · rintro (h | ⟨⟨h1, h2⟩, h3⟩)
     · exact Or.inl h
-    · refine Or.inr ⟨?_, h2, h3⟩
-      intro hh; rw [hh.1, hh.2] at h1; simp at h1
+    · exact Or.inr ⟨h1, h2, h3⟩
   · rintro (h | ⟨h1, h2, h3⟩)
     · exact Or.inl h
-    · refine Or.inr ⟨⟨?_, h2⟩, h3⟩
-      cases ha : a.kids.isNil <;> cases hb : b.kids.isNil <;> simp_all
+    · exact Or.inr ⟨⟨h1, h2⟩, h3⟩
+
+/-! ## the editor never changes the data of the node it is applied to -/
+
+theorem insertAt_data : ∀ (p : List Nat) (u c u' : T), insertAt u p c = some u' → u'.data = u.data
+  | [], .n d k, c, u', h => by simp [insertAt] at h
+  | [name], .n d k, c, u', h => by
+    simp only [insertAt] at h
+    split at h
+    · cases h
+    · simp only [Option.some.injEq] at h; subst h; rfl
+  | name :: q :: qs, .n d k, c, u', h => by
+    simp only [insertAt] at h
+    split at h
+    · cases h
+    · cases hf : k.find name with
+      | none => simp [hf] at h
+      | some sub =>
+        simp only [hf] at h
+        cases hi : insertAt sub (q :: qs) c with
+        | none => simp [hi] at h
+        | some s' => simp only [hi, Option.some.injEq] at h; subst h; rfl
+
+theorem rmAt_data : ∀ (p : List Nat) (u u' : T), rmAt u p = some u' → u'.data = u.data
+  | [], .n d k, u', h => by simp [rmAt] at h
+  | [name], .n d k, u', h => by
+    simp only [rmAt] at h
+    split at h
+    · cases h
+    · split at h
+      · simp only [Option.some.injEq] at h; subst h; rfl
+      · cases h
+  | name :: q :: qs, .n d k, u', h => by
+    simp only [rmAt] at h
+    split at h
+    · cases h
+    · cases hf : k.find name with
+      | none => simp [hf] at h
+      | some sub =>
+        simp only [hf] at h
+        cases hi : rmAt sub (q :: qs) with
+        | none => simp [hi] at h
+        | some s' => simp only [hi, Option.some.injEq] at h; subst h; rfl
+
+end C14
+
+namespace C14
+
+/-! ## converse: a successful, correct application forces the class `Good` -/
+
+/-- the change as seen from the child `name`: defined when its path goes strictly below that child -/
+def Ch.proj (name : Nat) : Ch → Option Ch
+  | .add (m :: q :: qs) a => if m = name then some (.add (q :: qs) a) else none
+  | .rm (m :: q :: qs) b => if m = name then some (.rm (q :: qs) b) else none
+  | .mod (m :: q :: qs) b a => if m = name then some (.mod (q :: qs) b a) else none
+  | _ => none
+
+def Ch.head : Ch → Option Nat
+  | ch => ch.path.head?
+
+theorem F.find_set_ne (k : F) (m name : Nat) (c : T) (h : name ≠ m) : (k.set m c).find name = k.find name := by
+  rw [F.find_set]; simp [h]
+
+theorem F.find_remove_ne (k : F) (m name : Nat) (h : name ≠ m) : (k.remove m).find name = k.find name := by
+  rw [F.find_remove]; simp [h]
+
+/-- a change whose path starts at another link leaves the child `name` alone -/
+theorem apply1_other (d : Nat) (k : F) (name : Nat) (ch : Ch) (r : T) (hh : ∀ m, ch.path.head? = some m → m ≠ name)
+    (h : apply1 (.n d k) ch = some r) : r.kids.find name = k.find name := by
+  have ins : ∀ (p : List Nat) (c r : T) (k : F), (∀ m, p.head? = some m → m ≠ name) →
+      insertAt (.n d k) p c = some r → r.kids.find name = k.find name := by
+    intro p c r k hp h
+    match p, hp, h with
+    | [], _, h => simp [insertAt] at h
+    | [m], hp, h =>
+      have hm : name ≠ m := fun e => hp m rfl e.symm
+      simp only [insertAt] at h
+      split at h
+      · cases h
+      · simp only [Option.some.injEq] at h; subst h; exact F.find_set_ne k m name c hm
+    | m :: q :: qs, hp, h =>
+      have hm : name ≠ m := fun e => hp m rfl e.symm
+      simp only [insertAt] at h
+      split at h
+      · cases h
+      · cases hf : k.find m with
+        | none => simp [hf] at h
+        | some sub =>
+          simp only [hf] at h
+          cases hi : insertAt sub (q :: qs) c with
+          | none => simp [hi] at h
+          | some s' => simp only [hi, Option.some.injEq] at h; subst h; exact F.find_set_ne k m name s' hm
+  have rm : ∀ (p : List Nat) (r : T) (k : F), (∀ m, p.head? = some m → m ≠ name) →
+      rmAt (.n d k) p = some r → r.kids.find name = k.find name ∧ r.data = d := by
+    intro p r k hp h
+    match p, hp, h with
+    | [], _, h => simp [rmAt] at h
+    | [m], hp, h =>
+      have hm : name ≠ m := fun e => hp m rfl e.symm
+      simp only [rmAt] at h
+      split at h
+      · cases h
+      · split at h
+        · simp only [Option.some.injEq] at h; subst h; exact ⟨F.find_remove_ne k m name hm, rfl⟩
+        · cases h
+    | m :: q :: qs, hp, h =>
+      have hm : name ≠ m := fun e => hp m rfl e.symm
+      simp only [rmAt] at h
+      split at h
+      · cases h
+      · cases hf : k.find m with
+        | none => simp [hf] at h
+        | some sub =>
+          simp only [hf] at h
+          cases hi : rmAt sub (q :: qs) with
+          | none => simp [hi] at h
+          | some s' => simp only [hi, Option.some.injEq] at h; subst h; exact ⟨F.find_set_ne k m name s' hm, rfl⟩
+  cases ch with
+  | add p a => exact ins p a r k hh h
+  | rm p b => exact (rm p r k hh h).1
+  | mod p b a =>
+    simp only [apply1] at h
+    cases hr : rmAt (.n d k) p with
+    | none => simp [hr] at h
+    | some t1 =>
+      simp only [hr] at h
+      obtain ⟨e1, e2⟩ := rm p t1 k hh hr
+      cases t1 with
+      | n d1 k1 =>
+        simp only [T.data] at e2; subst e2
+        rw [ins p a r k1 hh h]; exact e1
+
+end C14
+
+namespace C14
+
+theorem Ch.proj_spec (name : Nat) (ch : Ch) (hne : ch.path ≠ []) (hn1 : ch.path ≠ [name]) :
+    (∃ ch', Ch.proj name ch = some ch' ∧ ch = ch'.pre name ∧ ch'.path ≠ [] ∧ (ch.WF → ch'.WF)) ∨
+    (Ch.proj name ch = none ∧ ∀ m, ch.path.head? = some m → m ≠ name) := by
+  cases ch with
+  | add p a =>
+    match p, hne, hn1 with
+    | [m], _, hn1 =>
+      right; refine ⟨rfl, ?_⟩
+      intro m' hm' e; simp [Ch.path] at hm' hn1; subst hm'; exact hn1 e
+    | m :: q :: qs, _, _ =>
+      by_cases hm : m = name
+      · subst hm; left
+        exact ⟨.add (q :: qs) a, by simp [Ch.proj], rfl, by simp [Ch.path], fun h => h⟩
+      · right; refine ⟨by simp [Ch.proj, hm], ?_⟩
+        intro m' hm'; simp [Ch.path] at hm'; subst hm'; exact hm
+  | rm p b =>
+    match p, hne, hn1 with
+    | [m], _, hn1 =>
+      right; refine ⟨rfl, ?_⟩
+      intro m' hm' e; simp [Ch.path] at hm' hn1; subst hm'; exact hn1 e
+    | m :: q :: qs, _, _ =>
+      by_cases hm : m = name
+      · subst hm; left
+        exact ⟨.rm (q :: qs) b, by simp [Ch.proj], rfl, by simp [Ch.path], fun h => h⟩
+      · right; refine ⟨by simp [Ch.proj, hm], ?_⟩
+        intro m' hm'; simp [Ch.path] at hm'; subst hm'; exact hm
+  | mod p b a =>
+    match p, hne, hn1 with
+    | [m], _, hn1 =>
+      right; refine ⟨rfl, ?_⟩
+      intro m' hm' e; simp [Ch.path] at hm' hn1; subst hm'; exact hn1 e
+    | m :: q :: qs, _, _ =>
+      by_cases hm : m = name
+      · subst hm; left
+        exact ⟨.mod (q :: qs) b a, by simp [Ch.proj], rfl, by simp [Ch.path], fun h => h⟩
+      · right; refine ⟨by simp [Ch.proj, hm], ?_⟩
+        intro m' hm'; simp [Ch.path] at hm'; subst hm'; exact hm
+
+theorem apply1_data (t r : T) (ch : Ch) (h : apply1 t ch = some r) : r.data = t.data := by
+  cases ch with
+  | add p a => exact insertAt_data p t a r h
+  | rm p b => exact rmAt_data p t r h
+  | mod p b a =>
+    simp only [apply1] at h
+    cases hr : rmAt t p with
+    | none => simp [hr] at h
+    | some t1 =>
+      simp only [hr] at h
+      rw [insertAt_data p t1 a r h, rmAt_data p t t1 hr]
+
+/-- what a successful application did to the child `name`, when no change replaces or removes that child itself -/
+theorem applyAll_proj (d name : Nat) (hraw : T.raw (.n d .nil) = false) : ∀ (cs : List Ch) (k : F) (t r : T),
+    k.WF → k.find name = some t → (∀ ch ∈ cs, ch.WF ∧ ch.path ≠ [] ∧ ch.path ≠ [name]) →
+    applyAll (.n d k) cs = some r →
+    ∃ t', applyAll t (cs.filterMap (Ch.proj name)) = some t' ∧ r.kids.find name = some t'
+  | [], k, t, r, _, hf, _, h => by
+    simp only [applyAll, Option.some.injEq] at h; subst h
+    exact ⟨t, rfl, hf⟩
+  | ch :: cs, k, t, r, hw, hf, hall, h => by
+    obtain ⟨hcw, hne, hn1⟩ := hall ch List.mem_cons_self
+    have hrest : ∀ c ∈ cs, c.WF ∧ c.path ≠ [] ∧ c.path ≠ [name] := fun c hc => hall c (List.mem_cons_of_mem _ hc)
+    have htw := F.find_WF k name t hw hf
+    simp only [applyAll] at h
+    cases h1 : apply1 (.n d k) ch with
+    | none => simp [h1] at h
+    | some r1 =>
+      simp only [h1] at h
+      have hr1w : r1.WF := apply1_WF (.n d k) r1 ch hw hcw h1
+      have hr1d : r1.data = d := apply1_data (.n d k) r1 ch h1
+      rcases Ch.proj_spec name ch hne hn1 with ⟨ch', hp, rfl, hne', hwf'⟩ | ⟨hp, hh⟩
+      · -- the change goes below `name`
+        rw [apply1_pre d k name t ch' hw hf hne' (hwf' hcw) hraw] at h1
+        cases h2 : apply1 t ch' with
+        | none => simp [h2] at h1
+        | some t1 =>
+          simp only [h2, Option.map_some, Option.some.injEq] at h1
+          subst h1
+          have ht1 := apply1_WF t t1 ch' htw (hwf' hcw) h2
+          obtain ⟨t', a1, a2⟩ := applyAll_proj d name hraw cs (k.set name t1) t1 r (F.WF_set k name t1 hw ht1)
+            (by rw [F.find_set]; simp) hrest h
+          refine ⟨t', ?_, a2⟩
+          simp only [List.filterMap_cons, hp, applyAll, h2]
+          exact a1
+      · -- the change concerns another link
+        have hk1 := apply1_other d k name ch r1 hh h1
+        cases r1 with
+        | n d1 k1 =>
+          simp only [T.data] at hr1d; subst hr1d
+          simp only [T.kids] at hk1
+          obtain ⟨t', a1, a2⟩ := applyAll_proj d1 name hraw cs k1 t r hr1w (by rw [hk1]; exact hf) hrest h
+          refine ⟨t', ?_, a2⟩
+          simp only [List.filterMap_cons, hp]
+          exact a1
+
+end C14
+
+namespace C14
+
+theorem Ch.proj_pre (name : Nat) (c : Ch) (h : c.path ≠ []) : Ch.proj name (c.pre name) = some c := by
+  cases c with
+  | add p a => cases p with
+    | nil => exact absurd rfl h
+    | cons q qs => simp [Ch.pre, Ch.proj]
+  | rm p b => cases p with
+    | nil => exact absurd rfl h
+    | cons q qs => simp [Ch.pre, Ch.proj]
+  | mod p b a => cases p with
+    | nil => exact absurd rfl h
+    | cons q qs => simp [Ch.pre, Ch.proj]
+
+theorem Ch.proj_pre_ne (name m : Nat) (c : Ch) (h : m ≠ name) : Ch.proj name (c.pre m) = none := by
+  cases c with
+  | add p a => cases p <;> simp [Ch.pre, Ch.proj, h]
+  | rm p b => cases p <;> simp [Ch.pre, Ch.proj, h]
+  | mod p b a => cases p <;> simp [Ch.pre, Ch.proj, h]
+
+theorem filterMap_proj_none (name : Nat) (l : List Ch) (h : ∀ c ∈ l, Ch.proj name c = none) :
+    l.filterMap (Ch.proj name) = [] := by
+  induction l with
+  | nil => rfl
+  | cons c l ih =>
+    simp only [List.filterMap_cons, h c List.mem_cons_self]
+    exact ih (fun c' hc' => h c' (List.mem_cons_of_mem _ hc'))
+
+/-- every change of the recursive part starts at a link of `rest` -/
+theorem diffKids_head : ∀ (rest kb : F) (ch : Ch), ch ∈ diffKids rest kb →
+    ∃ m c, ch = Ch.pre m c ∧ (rest.find m).isSome = true
+  | .nil, _, ch, h => by simp [diffKids] at h
+  | .cons x tx rest, kb, ch, h => by
+    simp only [diffKids, List.mem_append] at h
+    rcases h with h | h
+    · cases hf : kb.find x with
+      | none => simp [hf] at h
+      | some tb =>
+        simp only [hf] at h
+        split at h
+        · simp at h
+        · simp only [List.mem_map] at h
+          obtain ⟨c, _, rfl⟩ := h
+          exact ⟨x, c, rfl, by simp [F.find]⟩
+    · obtain ⟨m, c, e, hm⟩ := diffKids_head rest kb ch h
+      refine ⟨m, c, e, ?_⟩
+      simp only [F.find]
+      split
+      · rfl
+      · exact hm
+
+theorem proj_diffKids (name : Nat) (kb : F) (tb : T) (hkb : kb.WF) (hfb : kb.find name = some tb) :
+    ∀ (rest : F) (ta : T), rest.WF → rest.find name = some ta → ta ≠ tb → modPair ta tb = false →
+    (diffKids rest kb).filterMap (Ch.proj name) = diff ta tb
+  | .nil, _, _, h, _, _ => by simp [F.find] at h
+  | .cons x tx rest, ta, hw, hf, hne, hmp => by
+    simp only [F.WF] at hw
+    simp only [diffKids, List.filterMap_append]
+    by_cases hx : x = name
+    · subst hx
+      simp only [F.find, if_true, Option.some.injEq] at hf
+      subst hf
+      simp only [hfb, hne, if_false]
+      have hshape := diff_shape tx tb (F.find_WF kb x tb hkb hfb)
+      have h1 : ((diff tx tb).map (Ch.pre x)).filterMap (Ch.proj x) = diff tx tb := by
+        rw [List.filterMap_map]
+        have : ∀ l : List Ch, (∀ c ∈ l, c.path ≠ []) → l.filterMap (Ch.proj x ∘ Ch.pre x) = l := by
+          intro l
+          induction l with
+          | nil => intro _; rfl
+          | cons c l ih =>
+            intro hl
+            simp only [List.filterMap_cons, Function.comp, Ch.proj_pre x c (hl c List.mem_cons_self)]
+            rw [ih (fun c' hc' => hl c' (List.mem_cons_of_mem _ hc'))]
+        exact this _ (fun c hc => (hshape c hc).2 hmp)
+      have h2 : (diffKids rest kb).filterMap (Ch.proj x) = [] := by
+        apply filterMap_proj_none
+        intro c hc
+        obtain ⟨m, c', rfl, hm⟩ := diffKids_head rest kb c hc
+        apply Ch.proj_pre_ne
+        intro e; subst e
+        rw [F.find_none_of_lb rest m m hw.2.1 hw.2.2 (Nat.le_refl _)] at hm; cases hm
+      rw [h1, h2, List.append_nil]
+    · have hf' : rest.find name = some ta := by simpa [F.find, hx] using hf
+      have ih := proj_diffKids name kb tb hkb hfb rest ta hw.2.1 hf' hne hmp
+      cases hfx : kb.find x with
+      | none => simpa using ih
+      | some tb' =>
+        simp only []
+        split
+        · simpa using ih
+        · rw [filterMap_proj_none name _ (by
+            intro c hc
+            simp only [List.mem_map] at hc
+            obtain ⟨c', _, rfl⟩ := hc
+            exact Ch.proj_pre_ne name x c' hx), List.nil_append]
+          exact ih
+
+/-- a change of the recursive part with the one-element path `[name]` is the Mod of a pair reported as one Mod -/
+theorem diffKids_single (name : Nat) (kb : F) (hkb : kb.WF) : ∀ (rest : F), rest.WF → ∀ ch ∈ diffKids rest kb,
+    ch.path = [name] → ∃ ta tb, rest.find name = some ta ∧ kb.find name = some tb ∧ modPair ta tb = true
+  | .nil, _, ch, h, _ => by simp [diffKids] at h
+  | .cons x tx rest, hw, ch, h, hp => by
+    simp only [F.WF] at hw
+    simp only [diffKids, List.mem_append] at h
+    rcases h with h | h
+    · cases hf : kb.find x with
+      | none => simp [hf] at h
+      | some tb =>
+        simp only [hf] at h
+        split at h
+        · simp at h
+        · simp only [List.mem_map] at h
+          obtain ⟨c, hc, rfl⟩ := h
+          rw [Ch.pre_path] at hp
+          simp only [List.cons.injEq] at hp
+          obtain ⟨rfl, hc0⟩ := hp
+          refine ⟨tx, tb, by simp [F.find], hf, ?_⟩
+          have := (diff_shape tx tb (F.find_WF kb x tb hkb hf) c hc).2
+          cases hm : modPair tx tb with
+          | true => rfl
+          | false => exact absurd hc0 (this hm)
+    · obtain ⟨ta, tb, h1, h2, h3⟩ := diffKids_single name kb hkb rest hw.2.1 ch h hp
+      refine ⟨ta, tb, ?_, h2, h3⟩
+      simp only [F.find]
+      have : x ≠ name := by
+        intro e; subst e
+        rw [F.find_none_of_lb rest x x hw.2.1 hw.2.2 (Nat.le_refl _)] at h1; cases h1
+      simp [this, h1]
+
+theorem onlyIn_mem : ∀ (r other : F) (p : Nat × T), p ∈ onlyIn r other → other.find p.1 = none ∧ (r.find p.1).isSome = true
+  | .nil, _, p, h => by simp [onlyIn] at h
+  | .cons x t r, other, p, h => by
+    simp only [onlyIn, List.mem_append] at h
+    rcases h with h | h
+    · split at h
+      · simp at h
+      · rename_i ho
+        simp at h; subst h
+        refine ⟨?_, by simp [F.find]⟩
+        cases hf : other.find x with
+        | none => rfl
+        | some _ => rw [hf] at ho; exact absurd rfl ho
+    · obtain ⟨a, b⟩ := onlyIn_mem r other p h
+      refine ⟨a, ?_⟩
+      simp only [F.find]
+      split
+      · rfl
+      · exact b
+
+end C14
+
+namespace C14
+
+theorem applyAll_data : ∀ (cs : List Ch) (a t : T), applyAll a cs = some t → t.data = a.data
+  | [], a, t, h => by simp only [applyAll, Option.some.injEq] at h; subst h; rfl
+  | c :: cs, a, t, h => by
+    simp only [applyAll] at h
+    cases h1 : apply1 a c with
+    | none => simp [h1] at h
+    | some a1 =>
+      simp only [h1] at h
+      rw [applyAll_data cs a1 t h, apply1_data a a1 c h1]
+
+mutual
+/-- if applying Diff's changes to a pair that is not reported as one Mod gives `b`, then the data agree and
+every name-matched pair of children is again in the class -/
+theorem conv_node : ∀ (a b : T), a.WF → b.WF → a ≠ b → modPair a b = false → applyAll a (diff a b) = some b →
+    a.data = b.data ∧ SubK a.kids b.kids
+  | .n da ka, .n db kb, ha, hb, hne, hmp, h => by
+    have hd : db = da := applyAll_data _ _ _ h
+    subst hd
+    refine ⟨rfl, ?_⟩
+    have hraw : T.raw (.n db .nil) = false := (modPair_false hmp).1
+    have hdiff : diff (.n db ka) (.n db kb) = diffKids ka kb
+        ++ (onlyIn ka kb).map (fun p => Ch.rm [p.1] p.2) ++ (onlyIn kb ka).map (fun p => Ch.add [p.1] p.2) := by
+      simp only [diff, hne, if_false, T.kids, hmp, Bool.false_eq_true]
+    have hshape := diff_shape (.n db ka) (.n db kb) hb
+    apply conv_kids ka kb ha hb
+    intro name ta tb hfa hfb hab hmpc
+    -- no change replaces or removes the child `name` itself
+    have hall : ∀ ch ∈ diff (.n db ka) (.n db kb), ch.WF ∧ ch.path ≠ [] ∧ ch.path ≠ [name] := by
+      intro ch hch
+      refine ⟨(hshape ch hch).1, (hshape ch hch).2 hmp, fun hp => ?_⟩
+      rw [hdiff] at hch
+      simp only [List.mem_append, List.mem_map] at hch
+      rcases hch with (hch | ⟨p, hp', rfl⟩) | ⟨p, hp', rfl⟩
+      · obtain ⟨ta', tb', h1, h2, h3⟩ := diffKids_single name kb hb ka ha ch hch hp
+        rw [hfa] at h1; rw [hfb] at h2; cases h1; cases h2
+        rw [hmpc] at h3; cases h3
+      · simp only [Ch.path, List.cons.injEq, and_true] at hp
+        have := (onlyIn_mem ka kb p hp').1
+        rw [hp, hfb] at this; cases this
+      · simp only [Ch.path, List.cons.injEq, and_true] at hp
+        have := (onlyIn_mem kb ka p hp').1
+        rw [hp, hfa] at this; cases this
+    obtain ⟨t', a1, a2⟩ := applyAll_proj db name hraw _ ka ta (.n db kb) ha hfa hall h
+    simp only [T.kids] at a2
+    rw [hfb] at a2; cases a2
+    -- the changes seen from the child are exactly the child's own diff
+    have hproj : (diff (.n db ka) (.n db kb)).filterMap (Ch.proj name) = diff ta tb := by
+      rw [hdiff, List.filterMap_append, List.filterMap_append, proj_diffKids name kb tb hb hfb ka ta ha hfa hab hmpc]
+      rw [filterMap_proj_none name _ (by
+        intro c hc; simp only [List.mem_map] at hc; obtain ⟨p, _, rfl⟩ := hc; rfl)]
+      rw [filterMap_proj_none name _ (by
+        intro c hc; simp only [List.mem_map] at hc; obtain ⟨p, _, rfl⟩ := hc; rfl)]
+      simp
+    rw [hproj] at a1
+    exact a1
+theorem conv_kids : ∀ (rest kb : F), rest.WF → kb.WF →
+    (∀ name ta tb, rest.find name = some ta → kb.find name = some tb → ta ≠ tb → modPair ta tb = false →
+      applyAll ta (diff ta tb) = some tb) → SubK rest kb
+  | .nil, _, _, _, _ => trivial
+  | .cons x tx rest, kb, hw, hb, H => by
+    simp only [F.WF] at hw
+    simp only [SubK]
+    constructor
+    · intro tb hfb
+      cases tx with
+      | n dx kx =>
+        simp only [Sub]
+        by_cases hab : T.n dx kx = tb
+        · exact Or.inl hab
+        · cases hmp : modPair (.n dx kx) tb with
+          | true => exact Or.inr (Or.inl rfl)
+          | false =>
+            have happ := H x (.n dx kx) tb (by simp [F.find]) hfb hab hmp
+            have := conv_node (.n dx kx) tb hw.1 (F.find_WF kb x tb hb hfb) hab hmp happ
+            exact Or.inr (Or.inr ⟨rfl, by simpa [T.data] using this.1, by simpa [T.kids] using this.2⟩)
+    · apply conv_kids rest kb hw.2.1 hb
+      intro name ta tb hfa hfb hab hmp
+      apply H name ta tb ?_ hfb hab hmp
+      simp only [F.find]
+      have : x ≠ name := by
+        intro e; subst e
+        rw [F.find_none_of_lb rest x x hw.2.1 hw.2.2 (Nat.le_refl _)] at hfa; cases hfa
+      simp [this, hfa]
+end
 
 end C14
